@@ -74,7 +74,7 @@ ASSUMPTIONS = [
 CLASSIC = ("CartPole", "MountainCar", "ContinuousMountainCar", "Acrobot", "Pendulum")
 MUJOCO = ("InvertedPendulum", "HalfCheetah", "Hopper", "Reacher", "Swimmer", "Walker2d", "InvertedDoublePendulum",
           "Pusher", "Ant", "Humanoid", "HumanoidStandup")
-MJ_QUICK = ("InvertedPendulum", "HalfCheetah")
+MJ_QUICK = ["InvertedPendulum"]  # HalfCheetah (200 s of eager/compile work) moved to the thorough tier
 WRAP_UNITS = ("wrap-a", "wrap-b", "wrap-c")
 COLL_UNITS = ("coll-onpolicy", "coll-offpolicy", "coll-table", "coll-stateful", "coll-realenv")
 
